@@ -1410,7 +1410,7 @@ def load_enums():
     """enumerator values from the public headers (needed for switch/case over mjt* enums)"""
     if ENUMS:
         return
-    for h in ("mjmodel.h", "mjdata.h", "mjvisualize.h", "mjspec.h"):
+    for h in ("mjtype.h", "mjmodel.h", "mjdata.h", "mjvisualize.h", "mjspec.h"):
         p = os.path.join(REPO, "include", "mujoco", h)
         r = subprocess.run(["clang", "-fsyntax-only", "-Xclang", "-ast-dump=json", "-w", "-I" + os.path.join(REPO, "include"), p],
                            capture_output=True, text=True)
